@@ -128,8 +128,8 @@ PROPS["C05"] = dict(
 )
 
 SIG_TRUST = [
-    "Signature::generate (chunks/par_chunks/enumerate/map/collect, rayon): contract `Ok ==> sig_of(result, stream)` ASSUMED, validated by the signature_generate twin on the sequential and the parallel path",
-    "SignatureTable::{from_signature, is_empty, has_weak_match, find_match} (FxHashMap entry API, iterator adapters): contracts ASSUMED, validated by the signature_table twin",
+    "Signature::generate is UNDER CONTRACT (extracted text; proved: Ok ==> block_size kept and, below 2^32 blocks, sig_of(result, stream); the debug_assert on the block count is an obligation). What stays assumed inside it are two R5 site shims for its adapter chains `data.chunks(bs).enumerate().map(|(i, chunk)| BlockSignature::compute(i as u32, chunk)).collect()` and the rayon `par_chunks` twin of it: std semantics (consecutive bs-byte pieces, numbered from 0, order kept, rayon == sequential), validated by the signature_generate / signature_structure twins on both paths; usize::div_ceil by contract",
+    "SignatureTable::{from_signature, is_empty, has_weak_match, find_match} are UNDER CONTRACT (extracted text; representation invariant wf: weak_index[w] lists exactly the indices of the blocks with weak hash w - established by from_signature's loop, consumed by the lookups). What stays assumed: the in-file FxHashMap shim (rustc_hash cannot be linked; standard map semantics of with_capacity_and_hasher / get / contains_key) and two R5 site shims - `m.entry(k).or_default().push(i)` and `c.iter().map(|&i| &blocks[i]).find(|sig| sig.strong_hash == s)` (first candidate in list order whose block carries that strong hash; precondition: every candidate indexes a block) - validated by the signature_table twin",
     "derived Clone of Signature returns an equal value",
     "collision_free() (no two byte strings with the same BLAKE3) is a HYPOTHESIS of the reconstruction / copy-bounds / greedy clauses, never an axiom",
 ]
@@ -159,15 +159,17 @@ PROPS["C01"] = dict(
         "CopiaSync::delta / AsyncCopiaSync::delta": "Ok ==> source_size == |S|, checksum == BLAKE3(S), basis_size == |basis|, cpy + lit == |S|; under collision_free(): every copy inside the basis and out(ops, basis) == S; io_ok ==> Ok",
         "patch (both engines)": "Ok ==> bytes written == out(ops, content(basis)); io_ok && well-formed && checksum matches ==> Ok",
         "lemma_c01_roundtrip": "delta's postcondition establishes patch's success antecedent; patch's output clause gives exactly the source",
-        "CopiaSync::signature": "== Signature::generate's contract (sig_of)",
+        "Signature::generate": "Verus, on the extracted text: Ok ==> block_size == the argument and (stream < 0xFFFF_FFFF * block_size bytes ==> sig_of(result, stream)): empty stream -> no blocks; otherwise one entry per block with index j, exact weak digest and BLAKE3 of block j, file_size == |stream|; the function's own debug_assert (block count == ceil(n / bs)) discharged; io_ok ==> Ok",
+        "SignatureTable::from_signature / find_match / has_weak_match / is_empty": "Verus, on the extracted text: from_signature establishes wf (every bucket entry indexes a block with that weak hash, no empty bucket, every block listed); find_match: Some ==> a block with that weak hash whose strong hash == BLAKE3(data), None ==> no such block; has_weak_match <==> some block has that weak hash",
+        "CopiaSync::signature": "== Signature::generate's contract (sig_of below 2^32 blocks)",
         "lemma_sig_unique": "sig_of determines the signature: engine / sequential vs parallel path independence follows from every producer satisfying sig_of",
-        "AsyncCopiaSync::sync_files (single-file `sync`)": "under collision_free(): Ok ==> the destination path holds exactly the bytes the source path held at entry (all three branches: destination absent, identical, delta + patch + temp + rename), source_size is the source's length and bytes_matched + bytes_literal == source_size; every callee precondition (valid block size for CopiaSync::with_block_size's assert!, delta's window bound, patch's length bound) established for arbitrary file contents",
+        "AsyncCopiaSync::sync_files (single-file `sync`)": "under collision_free() and idx_domain (every file < 2 TiB: the u32 block index): Ok ==> the destination path holds exactly the bytes the source path held at entry (all three branches: destination absent, identical, delta + patch + temp + rename), source_size is the source's length and bytes_matched + bytes_literal == source_size; every callee precondition (valid block size for CopiaSync::with_block_size's assert!, delta's window bound, patch's length bound) established for arbitrary file contents",
         "run_sync / run_sync_local_to_local (`copia sync SRC DST`, one file)": "for ANY --block-size value the engine's assert! is unreachable (validate_block_size precedes it: an invalid size is a reported error); two local files: Ok ==> DST holds exactly the bytes SRC held (sync_files's contract carried to the command)",
         "SyncBuilder::{new, block_size, build}, CopiaSync::with_block_size": "the engine sync_files builds has the requested block size and checksum verification on; block_size's assert! is a caller obligation",
     },
     trusted=COMMON_TRUST + IO_TRUST + SIG_TRUST + SINGLE_TRUST,
     assumptions=["block size <= 2^24 and basis < 2^48 bytes (library-level domain restriction; the CLI allows 512..65536)", "block index < 2^32"],
-    not_decided=["AsyncCopiaSync::signature's read loop: assumed to satisfy sig_of, validated by the engines_agree twin (not yet under a loop invariant)",
+    not_decided=[
                  "CLI file chain (bincode files): validated by the cli_chain twin only; the two remote directions of the single-file command (run_sync_local_to_remote / run_sync_remote_to_local: one ssh child each) are outside C01's statement and by name only",
                  "engine-independence of the DELTA value: both engines satisfy the same contract (same greedy literal count and same reconstruction); equality of the op lists themselves is checked by the engines_agree twin only"],
 )
